@@ -394,7 +394,7 @@ def hyp_machine(ctx, label, machine_cls, max_examples, steps, shard=0):
             break
         ctx.replace_failure(v.bucket, v.case, v.message)
         excluded.add(v.bucket)
-    ctx.engine("hypothesis-machine:" + label, max_examples=max_examples, steps=steps)
+    ctx.engine("hypothesis-machine:" + label, max_examples=max_examples, stateful_step_count=str(steps))
 
 
 def machine_violation(machine, bucket, message, case):
